@@ -56,6 +56,8 @@ def run(fb, rep, tier):
     from . import C10
     C10.c6_rearm(fb, rep, clause='C05.11')
     C10.completion_flag(fb, rep, 'C05.11')
+    # .15 quit ends the process only if the shutdown loop counts the helpers' acknowledgements (shared with C10.10)
+    C10.c10_ack_counting(fb, rep, 'C05.15')
     c12_limits_reach_search(fb, rep)
     c13_output_lines(fb, rep, cg)
     c14_limited_strength_single_thread(fb, rep)
